@@ -1,1 +1,4 @@
-import StirVerif.C05.Model
+import StirVerif.C05.ProofsAlgebra
+import StirVerif.C05.ProofsTextbook
+import StirVerif.C05.ProofsSetup
+import StirVerif.C05.ProofsDeriv
